@@ -273,15 +273,13 @@ def check_deadline_loop(c, repo, f, read, expire_call):
     if good:
         rn = good[0]
         # guarded by timeout is not None
-        guards = [t for t in g.nodes if t.kind == 'test' and rn in guard_region(g, t, 'true') and 'is not None' in norm(t.ast) and var in norm(t.ast)]
+        guards = [t for t in g.nodes if t.kind == 'test' and rn in guard_region(g, t, 'true') and norm(t.ast) == '%s is not None' % var]
         c.check(bool(guards), f, rn.ast, 'the recomputation is skipped only for timeout=None', kind='path', tag='recompute-guard')
         if read:
             rd = reads[0]
             # between two reads, unless timeout is None, the recompute happens: every path rd -> rd passes rn or a false edge of the None-guard
-            nones = set()
-            for t in guards:
-                nones |= set(s for s, l in t.succ if l == 'false')
-            ok, p = g.must_pass(rd, {rd}, {rn} | nones, skip_labels=('exc',))
+            nones = set((t, 'false') for t in guards)
+            ok, p = g.must_pass(rd, {rd}, {rn}, skip_labels=('exc',), through_edges=nones)
             c.check(ok, f, rn.ast, 'after every read the remaining time is recomputed before the next read',
                     witness='path: ' + g.describe_path(p) if p else None, tag='recompute-every-iteration')
             k = [k for k in node_calls(rd) if callee_last(k) == read][0]
@@ -549,6 +547,7 @@ MUTANTS = [
     ('end-time-in-loop', 'expect', "                incoming = spawn.read_nonblocking(spawn.maxread, timeout)", "                if timeout is not None:\n                    end_time = time.time() + timeout\n                incoming = spawn.read_nonblocking(spawn.maxread, timeout)", 'D3'),
     ('no-recompute', 'expect', "                if timeout is not None:\n                    timeout = end_time - time.time()\n        except EOF", "        except EOF", 'D3'),
     ('expiry-le', 'expect', "if (timeout is not None) and (timeout < 0):", "if (timeout is not None) and (timeout <= 0):", 'D3'),
+    ('recompute-only-sometimes', 'expect', "                if timeout is not None:\n                    timeout = end_time - time.time()\n        except EOF", "                if timeout is not None and len(incoming) > 0:\n                    timeout = end_time - time.time()\n        except EOF", 'D3'),
     ('read-gets-default', 'expect', "incoming = spawn.read_nonblocking(spawn.maxread, timeout)", "incoming = spawn.read_nonblocking(spawn.maxread, spawn.timeout)", 'D3'),
     ('select-eintr-no-recompute', 'utils', "                if timeout is not None:\n                    timeout = end_time - time.time()\n                    if timeout < 0:\n                        return([], [], [])", "                pass", 'D4'),
     ('poll-seconds', 'utils', "timeout_ms = None if timeout is None else timeout * 1000", "timeout_ms = None if timeout is None else timeout", 'D4'),
